@@ -113,7 +113,9 @@ def run_local(case, drv):
     v, ps = case["var"], case["parents"]
     try:
         s = scorer(kind, df, case, ess)
-        got = float(s.local_score(names[v], [names[p] for p in ps]))
+        pl = [names[p] for p in ps]
+        # the parent set in any iterable form (list, tuple, generator, one-shot iterator)
+        got = float(s.local_score(names[v], [pl, tuple(pl), (x for x in pl), iter(pl)][(len(case["rows"]) + v) % 4]))
     except Exception as e:
         return fail(f"{kind}.local_score raised {type(e).__name__}: {e}", kind=kind)
     exp, r = model_local(drv, case, v, ps, kind, ess)
